@@ -236,6 +236,14 @@ func (h *handle) ReadAt(p []byte, off int64) (int, error) {
 	if hook := h.fs.R.ReadHook; hook != nil {
 		hook(h.name, off, len(p))
 	}
+	n, err := h.readAt(p, off)
+	if hook := h.fs.R.ReadDoneHook; hook != nil {
+		hook(h.name, off, n)
+	}
+	return n, err
+}
+
+func (h *handle) readAt(p []byte, off int64) (int, error) {
 	h.lf.mu.RLock()
 	defer h.lf.mu.RUnlock()
 	if off < 0 {
